@@ -89,4 +89,10 @@ TEXT = {
         "level_text": "Generated histories of 5..40 steps over 1..3 fake sources and up to 40 providers run against a real ProviderCache in a synctest bubble: source content changes (appear, advance, regress, disappear, bulk updates crossing the merge threshold), source failures, Refresh, Refresh cancelled by source i, Refresh issued while another is parked inside a source (completing or cancelled), Get hit/miss/negative, List, time advances around the TTL. After every step the cache is compared with a reference model that keeps, per provider, the records ever delivered and [lo, hi] bounds on the freshest advertisement time (lo over completed operations), exact TTL bounds on the virtual clock, and the remembered-absent state (nil with zero Fetch calls). Found two defects, both fixed.",
         "level_note": "Trusted: the harness's reference model; where the statement leaves the outcome open (TTL equality, records delivered only by a cancelled refresh) the model accepts either and adopts what it observes through List. Automatic refresh is disabled here (C07).",
     },
+    "C07": {
+        "engine": "h26",
+        "technique": "property-based testing of schedules: rapid-drawn scripts with the writer parked inside a source call in a synctest bubble (exact 'no reader blocked' check), plus rapid-drawn real-time stress under the Go race detector",
+        "level_text": "Bubble unit: a writer (Refresh, miss-fetch, automatic refresh after the interval elapsed on the virtual clock) is parked inside the fake source while 1..8 readers run drawn Get/List/GetResults sequences on cached providers; synctest.Wait decides exactly, without timeouts, whether any reader is blocked; per-reader versions must be monotone, stable providers never missing, records never torn, the coalesced automatic refresh must cost exactly one FetchAll round. Race unit: the same oracles in real time with 2..16 readers and 1..3 writers, built with -race; a race report (exit 66) is a violation.",
+        "level_note": "Trusted: the Go race detector and scheduler (interleavings are sampled, not enumerated; races are only seen on executions that happen). No library hook is needed: the writer is parked inside the harness's own ProviderSource.",
+    },
 }
